@@ -73,3 +73,40 @@ Theorem C09_calls_keep_flags : forall cfg st c now s,
   let '(_, st', _, _, _) := run_inner cfg st c now s in flags_of st' = flags_of st.
 Proof. exact run_inner_flags. Qed.
 Print Assumptions C09_calls_keep_flags.
+
+(* ---- the code is the model (regenerated each run): the real Client.send_request executed on a symbolic clock (tools/symtrans.py,
+   Gen/Fn_SendRequest.v) - inside suppress_positive_response blocks ---- *)
+From UDS Require Import Gen.Fn_SendRequest Model.Services Proofs.Tie_send_common Proofs.Tie_send_spr.
+
+Theorem C09_code_send_request_spr_wait_silence : forall cfg T P2 P2S now, timing cfg (Some T) P2 P2S ->
+  fn_send_request_spr_wait_silence T P2 P2S now = ret (obs_sr (send_request cfg (spr_enter (spr_call st_init true)) tp_req (-1) now [])).
+Proof. exact tie_send_request_spr_wait_silence. Qed.
+Print Assumptions C09_code_send_request_spr_wait_silence.
+Theorem C09_code_send_request_spr_wait_P : forall cfg T P2 P2S now a1, timing cfg (Some T) P2 P2S -> now < a1 ->
+  fn_send_request_spr_wait_P T P2 P2S now a1 = ret (obs_sr (send_request cfg (spr_enter (spr_call st_init true)) tp_req (-1) now [(a1, Frame [126; 0])])).
+Proof. exact tie_send_request_spr_wait_P. Qed.
+Print Assumptions C09_code_send_request_spr_wait_P.
+Theorem C09_code_send_request_spr_wait_N : forall cfg T P2 P2S now a1, timing cfg (Some T) P2 P2S -> now < a1 ->
+  fn_send_request_spr_wait_N T P2 P2S now a1 = ret (obs_sr (send_request cfg (spr_enter (spr_call st_init true)) tp_req (-1) now [(a1, Frame [127; 62; 34])])).
+Proof. exact tie_send_request_spr_wait_N. Qed.
+Print Assumptions C09_code_send_request_spr_wait_N.
+Theorem C09_code_send_request_spr_wait_W : forall cfg T P2 P2S now a1, timing cfg (Some T) P2 P2S -> now < a1 ->
+  fn_send_request_spr_wait_W T P2 P2S now a1 = ret (obs_sr (send_request cfg (spr_enter (spr_call st_init true)) tp_req (-1) now [(a1, Frame [127; 62; 120])])).
+Proof. exact tie_send_request_spr_wait_W. Qed.
+Print Assumptions C09_code_send_request_spr_wait_W.
+Theorem C09_code_send_request_spr_wait_WP : forall cfg T P2 P2S now a1 a2, timing cfg (Some T) P2 P2S -> now < a1 ->
+  fn_send_request_spr_wait_WP T P2 P2S now a1 a2 = ret (obs_sr (send_request cfg (spr_enter (spr_call st_init true)) tp_req (-1) now [(a1, Frame [127; 62; 120]); (a2, Frame [126; 0])])).
+Proof. exact tie_send_request_spr_wait_WP. Qed.
+Print Assumptions C09_code_send_request_spr_wait_WP.
+Theorem C09_code_send_request_spr_wait_WN : forall cfg T P2 P2S now a1 a2, timing cfg (Some T) P2 P2S -> now < a1 ->
+  fn_send_request_spr_wait_WN T P2 P2S now a1 a2 = ret (obs_sr (send_request cfg (spr_enter (spr_call st_init true)) tp_req (-1) now [(a1, Frame [127; 62; 120]); (a2, Frame [127; 62; 34])])).
+Proof. exact tie_send_request_spr_wait_WN. Qed.
+Print Assumptions C09_code_send_request_spr_wait_WN.
+Theorem C09_code_send_request_spr_silence : forall cfg T P2 P2S now, timing cfg (Some T) P2 P2S ->
+  fn_send_request_spr_silence T P2 P2S now = ret (obs_sr (send_request cfg (spr_enter (spr_call st_init false)) tp_req (-1) now [])).
+Proof. exact tie_send_request_spr_silence. Qed.
+Print Assumptions C09_code_send_request_spr_silence.
+Theorem C09_code_send_request_spr_P : forall cfg T P2 P2S now a1, timing cfg (Some T) P2 P2S -> now < a1 ->
+  fn_send_request_spr_P T P2 P2S now a1 = ret (obs_sr (send_request cfg (spr_enter (spr_call st_init false)) tp_req (-1) now [(a1, Frame [126; 0])])).
+Proof. exact tie_send_request_spr_P. Qed.
+Print Assumptions C09_code_send_request_spr_P.
